@@ -1,5 +1,7 @@
 (* conv: io n z nat *)
-(* C16 driver = the C08 driver plus the command `counts` (number of handler tasks and pool work
+(* C16 driver: events are Model/EndpointX.v's (code 8 = ServerCancel id, 9 = OutCancel o, else an
+   Endpoint.ev wrapped in Base).
+   C16 driver = the C08 driver plus the command `counts` (number of handler tasks and pool work
    items created by a history: used to concatenate independently generated blocks).
    C08 driver = the C01 driver (same input language, same observations) whose `run` summary also
    carries the reference of Spec/CancelSpec.v for every request frame: id, natural payload, and
@@ -62,6 +64,12 @@ let next_ev () = match next_int () with
   | 5 -> WriteStep
   | 6 -> ExitCb
   | _ -> UserSend (next_id ())
+let next_evx () =
+  (* peek the event code: 8 = ServerCancel id, 9 = OutCancel o, anything else an Endpoint.ev *)
+  match !toks with
+  | "8" :: r -> toks := r; ServerCancel (next_id ())
+  | "9" :: r -> toks := r; OutCancel (next_nat ())
+  | _ -> Base (next_ev ())
 let next_cfg () =
   let w = if next_int () = 0 then WBlocking else WAwaitable in
   let h = match next_int () with 0 -> HookDefault | 1 -> HookQuiet | _ -> HookRaises in
@@ -127,24 +135,25 @@ let put_summary c evs s =
 
 let dispatch = function
   | "run" ->
-    let c = next_cfg () in let evs = read_list next_ev in
+    let c = next_cfg () in let evxs = read_list next_evx in
+    let evs = List.concat_map (function Base e -> [e] | _ -> []) evxs in
     let (s, _) = List.fold_left (fun (s, x) e ->
-        let s' = step c s e in let x' = sp_step x e in
-        put_obs s s'; put_list put_id (drop (List.length x.sp_exp) x'.sp_exp); (s', x')) (init, sp_init) evs in
+        let s' = stepx c s e in let x' = (match e with Base b -> sp_step x b | _ -> x) in
+        put_obs s s'; put_list put_id (drop (List.length x.sp_exp) x'.sp_exp); (s', x')) (init, sp_init) evxs in
     put_summary c evs s
   | "enabled" ->      (* enabled internal events in the state reached, quiescent? *)
-    let c = next_cfg () in let evs = read_list next_ev in
-    let s = run c evs in
+    let c = next_cfg () in let evs = read_list next_evx in
+    let s = runx c evs in
     put_list put_ev (enabled s); put_bool (quiescent s)
   | "drain" ->        (* the canonical drain schedule from the state reached *)
-    let c = next_cfg () in let evs = read_list next_ev in
-    let s = run c evs in
+    let c = next_cfg () in let evs = read_list next_evx in
+    let s = runx c evs in
     let d = drain c (measure s) s in
     put_list put_ev d; put_bool (quiescent (List.fold_left (step c) s d))
   | "counts" ->
-    let c = next_cfg () in let evs = read_list next_ev in
-    let s = run c evs in
+    let c = next_cfg () in let evs = read_list next_evx in
+    let s = runx c evs in
     put_int (List.length s.tasks); put_int (List.length s.jobs); put_bool (quiescent s);
-    put_int (List.length s.futs); put_int (List.length s.rtypes)
+    put_int (List.length s.futs); put_int (List.length s.rtypes); put_int (List.length s.outg)
   | c -> failwith ("unknown command " ^ c)
 let () = main_loop dispatch
